@@ -8,6 +8,7 @@ SCENARIOS = {
     "distinct-sinks": ("conc 2", ["0:1", "1:2"]),
     "same-sink": ("conc 1", ["0:1", "0:2"]),
     "two-then-one": ("conc 2", ["0:1,0:3", "1:2"]),
+    "same-sink-one-then-two": ("conc 1", ["0:1", "0:2,0:3"]),
 }
 
 
@@ -66,6 +67,14 @@ def check(tier, seed):
     for key, (k, sc) in sorted(classes.items()):
         viols.append({"what": f"shared context, scenario/outcome `{key}`: {hl[k]}", "found_input": True, "signature": key,
                       "replay_text": f"# C20 violated on real threads under a forced schedule; class {key}\n# outcome: {hl[k]}\n{lines[k]}\n"})
+    # a schedule on which the implementation violates the property although the model of the unchanged library
+    # predicts a clean outcome is a NEW failing schedule, whatever class it falls into
+    newbad = [(k, h, m) for (k, h, m) in disagree if classify(meta[k][0], meta[k][1], h) != "ok" and classify(meta[k][0], meta[k][1], m) == "ok"]
+    if newbad:
+        k, h, m = min(newbad, key=lambda x: len(meta[x[0]][2]))
+        viols.append({"what": f"{len(newbad)} schedules on which the library now violates C20 although M_conc (the unchanged library) delivers everything: `{h}`", "found_input": True,
+                      "signature": "schedule:" + lines[k],
+                      "replay_text": f"# C20 violated on real threads under a forced schedule on which the unchanged library is correct\n# implementation: {h}\n# model       : {m}\n{lines[k]}\n"})
     if disagree:
         k, h, m = disagree[0]
         viols.append({"what": f"M_conc does not predict the real outcome of {len(disagree)} schedules: impl `{h}` model `{m}`", "found_input": False, "signature": None,
